@@ -40,6 +40,55 @@ package httpserver
 //@   loop 1 invariant min.IdleTimeoutSet ==> exists(k, 0, #i, group[k].Timeouts.IdleTimeoutSet && min.IdleTimeout == group[k].Timeouts.IdleTimeout)
 //@   loop 1 invariant forall(k, 0, #i, group[k].Timeouts.IdleTimeoutSet ==> (min.IdleTimeout == group[k].Timeouts.IdleTimeout || (min.IdleTimeout != 0 && (group[k].Timeouts.IdleTimeout == 0 || min.IdleTimeout <= group[k].Timeouts.IdleTimeout))))
 
+//@ unit listener_header_limit props=C17 filter=`httpserver\.makeHTTPServerWithHeaderLimit$`
+//@ // the shared request-header limit is the strictest (smallest) value any co-hosted site sets; 0 means "not set"
+//@ define hlim(k int) int64 = group[k].Limits.MaxRequestHeaderSize
+//@ func makeHTTPServerWithHeaderLimit
+//@   requires s != nil && forall(k, 0, len(group), group[k] != nil && hlim(k) >= 0)
+//@   modifies Server.MaxHeaderBytes
+//@   ensures [returns_server] result == s
+//@   ensures [unset_keeps_default] forall(k, 0, len(group), hlim(k) == 0) ==> s.MaxHeaderBytes == old(s.MaxHeaderBytes)
+//@   ensures [strictest_header] forall(k, 0, len(group), hlim(k) > 0 ==> int64(s.MaxHeaderBytes) <= hlim(k))
+//@   ensures [attained_header] exists(k, 0, len(group), hlim(k) > 0) ==> exists(k, 0, len(group), hlim(k) > 0 && int64(s.MaxHeaderBytes) == hlim(k))
+//@   loop 1 invariant 0 <= #i && #i <= len(group) && min >= 0 && s.MaxHeaderBytes == old(s.MaxHeaderBytes)
+//@   loop 1 invariant (min == 0) == forall(k, 0, #i, hlim(k) == 0)
+//@   loop 1 invariant min > 0 ==> (exists(k, 0, #i, hlim(k) == min) && forall(k, 0, #i, hlim(k) > 0 ==> min <= hlim(k)))
+
+//@ unit response_buffer props=C12 filter=`httpserver\.(ResponseBuffer\)\.(WriteHeader|Write|Buffered)|forcedStatusCodeWriter\)\.WriteHeader)$`
+//@ // the buffering writer used by `templates`: the header of the real writer is committed at most once, with the status the
+//@ // handler below chose; a buffered response is later sent with exactly that status (forcedStatusCodeWriter), whatever
+//@ // status http.ServeContent passes.
+//@ ghost wh int
+//@ ghost lastStatus int
+//@ extern invoke:(net/http.ResponseWriter).WriteHeader
+//@   modifies ghost:wh, ghost:lastStatus
+//@   ensures wh == old(wh) + 1 && lastStatus == statusCode
+//@ extern invoke:(net/http.ResponseWriter).Write
+//@ extern (*bytes.Buffer).Write
+//@ func (*ResponseBuffer).CopyHeader
+//@   requires rb != nil
+//@ func (forcedStatusCodeWriter).WriteHeader
+//@   requires fscw.rb != nil && fscw.ResponseWriter != nil
+//@   modifies ghost:wh, ghost:lastStatus
+//@   ensures [forces_buffered_status] wh == old(wh) + 1 && lastStatus == fscw.rb.status
+//@ func (*ResponseBuffer).Buffered
+//@   pure reads ResponseBuffer.stream
+//@   requires rb != nil
+//@   ensures result == !rb.stream
+//@ func (*ResponseBuffer).WriteHeader
+//@   requires rb != nil && rb.ResponseWriterWrapper != nil && rb.ResponseWriterWrapper.ResponseWriter != nil && rb.shouldBuffer != nil
+//@   modifies ghost:wh, ghost:lastStatus, ResponseBuffer.wroteHeader, ResponseBuffer.status, ResponseBuffer.stream
+//@   ensures [only_first_call_counts] old(rb.wroteHeader) ==> (wh == old(wh) && rb.status == old(rb.status) && rb.stream == old(rb.stream))
+//@   ensures [records_status] !old(rb.wroteHeader) ==> (rb.wroteHeader && rb.status == status)
+//@   ensures [streams_with_same_status] (!old(rb.wroteHeader) && rb.stream) ==> (wh == old(wh) + 1 && lastStatus == status)
+//@   ensures [buffering_commits_nothing] (!old(rb.wroteHeader) && !rb.stream) ==> wh == old(wh)
+//@ func (*ResponseBuffer).Write
+//@   requires rb != nil && rb.ResponseWriterWrapper != nil && rb.ResponseWriterWrapper.ResponseWriter != nil && rb.shouldBuffer != nil && rb.Buffer != nil
+//@   modifies ghost:wh, ghost:lastStatus, ResponseBuffer.wroteHeader, ResponseBuffer.status, ResponseBuffer.stream
+//@   ensures [header_decided] rb.wroteHeader
+//@   ensures [commit_at_most_once] wh <= old(wh) + 1 && (old(rb.wroteHeader) ==> wh == old(wh))
+//@   ensures [implicit_200] !old(rb.wroteHeader) ==> rb.status == 200
+
 //@ unit match_host props=C01 filter=`vhostTrie\)\.matchHost$`
 //@ spec nparts(s string, sep string) int
 //@ spec part(s string, sep string, j int) string
